@@ -34,7 +34,7 @@ META = {
     'level_note': 'Corpus obeys the README rule that the instance handed to Struct() has the receiver kind of the method (a value method '
                   'mocked through a pointer instance only patches the (*T).m wrapper). Instantiations of EQUAL GC shape share one body, so '
                   'mocking one mocks the other (the property only excludes different shapes). Known gaps recorded as findings: unexported '
-                  'methods of generic instantiations cannot be mocked by name. Outside the statement but observed: a callback on a generic '
+                  'methods of generic instantiations cannot be mocked by name (C06-K1; histories that patch a generic wrapper by name and then mock the same method via Method() are checked by the oracle only, the model does not cover a patched wrapper). Outside the statement but observed: a callback on a generic '
                   'method receives the dictionary pointer as its first ordinary parameter (receiver still correct). Build uses -gcflags=all=-l.',
 }
 
@@ -80,7 +80,7 @@ class Ty:
 
 def gen_corpus(tier, rng):
     """Returns (types, entries).  entries: list of dicts id,pk,pkg,T(reflect name),go(Go spelling),ptr,m,np,shape,K,layout,exported_type,generic"""
-    n_exp, n_unexp, n_gen, n_inst = (22, 10, 3, 6) if tier == 'quick' else (120, 16, 8, 8)
+    n_exp, n_unexp, n_gen, n_inst = (22, 10, 3, 6) if tier == 'quick' else (40, 16, 4, 8)
     types = []
 
     def methods_for(policy, k):
@@ -359,7 +359,7 @@ def gen_hists(tier, rng, entries):
             mal.append(('malformed-type', [step_tok('ES', e, raw=raw)]))
         mal.append(('malformed-pkg', [step_tok('ES', e, pkg=e['pkg'] + 'x')]))
         mal.append(('malformed-pkg', [step_tok('ES', e, pkg=e['pkg'][:-1])]))
-    nm = 150 if tier == 'quick' else 3000
+    nm = 150 if tier == 'quick' else 1500
     for _ in range(min(nm, len(mal))):
         H.append(mal.pop(rng.below(len(mal))))
     # lane 3: same-named types / key collisions inside ONE builder (both orders)
@@ -578,7 +578,8 @@ def run_impl(binary, ops_path, n, tag):
 
 def execute(hists, entries, syms, binary, tag='c06'):
     tail = ' | ' + ' '.join(entry_tok(e) for e in entries) + ' | ' + ' '.join(syms)
-    ops = ['c06.hist ' + ' '.join(steps) + tail for steps in hists]
+    # '@' abbreviates the common import-path prefix BASE on the wire (expanded again by the probe and by the driver)
+    ops = [('c06.hist ' + ' '.join(steps) + tail).replace(BASE, '@') for steps in hists]
     ops_path = os.path.join(C.BUILD, f'{tag}.ops')
     open(ops_path, 'w').write('\n'.join(ops) + '\n')
     impl = run_impl(binary, ops_path, len(ops), tag)
